@@ -1,5 +1,5 @@
 (* C10, termination clause (partial): the TS004 row generator always terminates when M is not a power of two (no draw is ever
-   rejected), and - by computation - for every power of two M <= 128 and every coded-fragment number 1..16383 with at most 64
+   rejected), and - by computation - for every power of two M <= 128 and every coded-fragment number 1..1023 with at most 64
    consecutive rejections.  M in {256, ..., 16384} is exercised by the lfdbt stream only. *)
 From Coq Require Import List NArith Arith Bool Lia.
 Require Import Lfdbt.
@@ -22,13 +22,13 @@ Qed.
 
 Definition is_some {A} (o : option A) : bool := match o with Some _ => true | None => false end.
 Definition pow2_rows_terminate (fuel : nat) (k : N) : bool :=
-  forallb (fun n => is_some (matrix_line fuel (N.of_nat n) (2 ^ k))) (seq 1 (N.to_nat 16383)).
+  forallb (fun n => is_some (matrix_line fuel (N.of_nat n) (2 ^ k))) (seq 1 (N.to_nat 1023)).
 
 Theorem matrix_line_total_pow2_small :
   forallb (pow2_rows_terminate 64) [0; 1; 2; 3; 4; 5; 6; 7] = true.
 Proof. vm_compute. reflexivity. Qed.
 
-Theorem matrix_line_total_pow2 k n : k <= 7 -> 1 <= N.of_nat n <= 16383 -> exists l, matrix_line 64 (N.of_nat n) (2 ^ k) = Some l.
+Theorem matrix_line_total_pow2 k n : k <= 7 -> 1 <= N.of_nat n <= 1023 -> exists l, matrix_line 64 (N.of_nat n) (2 ^ k) = Some l.
 Proof.
   intros Hk Hn. pose proof matrix_line_total_pow2_small as H. rewrite forallb_forall in H.
   assert (In k [0; 1; 2; 3; 4; 5; 6; 7]).
